@@ -49,6 +49,7 @@ type Engine struct {
 	reachGhost  map[*ssa.Function]map[string]bool
 	immutableLeaves []immLeaf
 	allFuncs    []*ssa.Function
+	ownCache    map[string]bool
 	loadMs      int64
 	pureCache   map[*ssa.Function]bool
 	implCache   map[*ssa.Function]*FuncContract
@@ -457,20 +458,10 @@ func (e *Engine) escapes(a *ssa.Alloc) bool {
 					return true
 				}
 			case *ssa.MakeClosure:
-				// fine when the closure is only deferred or called in this function
-				if cr := u.Referrers(); cr != nil {
-					for _, cu := range *cr {
-						switch c := cu.(type) {
-						case *ssa.Defer:
-						case *ssa.Call:
-							if c.Call.Value != u {
-								return true
-							}
-						case *ssa.DebugRef:
-						default:
-							return true
-						}
-					}
+				// fine when the closure is only deferred or called in this function (possibly after
+				// being selected by a phi or parked in a local variable)
+				if !e.onlyCalled(u, map[ssa.Value]bool{}) {
+					return true
 				}
 			default:
 				return true
@@ -481,6 +472,60 @@ func (e *Engine) escapes(a *ssa.Alloc) bool {
 	r := walk(a)
 	e.escCache[a] = r
 	return r
+}
+
+// onlyCalled: the function value v is never passed on, stored in the heap or returned; it is only
+// called or deferred, directly or through phis and non-escaping local variables.
+func (e *Engine) onlyCalled(v ssa.Value, seen map[ssa.Value]bool) bool {
+	if seen[v] {
+		return true
+	}
+	seen[v] = true
+	refs := v.Referrers()
+	if refs == nil {
+		return false
+	}
+	for _, u := range *refs {
+		switch c := u.(type) {
+		case *ssa.Defer:
+			if c.Call.Value != v {
+				return false
+			}
+		case *ssa.Call:
+			if c.Call.Value != v {
+				return false
+			}
+		case *ssa.DebugRef:
+		case *ssa.Phi:
+			if !e.onlyCalled(c, seen) {
+				return false
+			}
+		case *ssa.Store:
+			cell, ok := c.Addr.(*ssa.Alloc)
+			if !ok || c.Val != v {
+				return false
+			}
+			// the variable holding the closure: only loaded (and the loads only called) or assigned
+			for _, cu := range *cell.Referrers() {
+				switch x := cu.(type) {
+				case *ssa.Store:
+					if x.Addr != cell {
+						return false
+					}
+				case *ssa.UnOp:
+					if !e.onlyCalled(x, seen) {
+						return false
+					}
+				case *ssa.DebugRef:
+				default:
+					return false
+				}
+			}
+		default:
+			return false
+		}
+	}
+	return true
 }
 
 func (e *Engine) loopHeaders(fn *ssa.Function) map[*ssa.BasicBlock]int {
